@@ -419,6 +419,9 @@ func ttxGenStream(r *fw.Rand) ttxStream {
 	tables()
 	tables()
 	pts := r.I64n(1 << 32)
+	if r.P(1, 6) {
+		pts = fw.Pick(r, []int64{0, 0, 1, 90000}) // a stream whose clock starts at zero
+	}
 	var ptsList []int64
 	i := 0
 	for i < len(units) {
